@@ -17,14 +17,14 @@ RULE = ("random DSLs (families F1-F3) compiled by the real code into depth-bound
         "by the model's traversal, duplicate test, length = size of the model's language).  A case is non-trivial when the "
         "language has >= 5 programs and the weights are not uniform.")
 ASSUMPTIONS = ["a run that exceeds the per-case time limit counts as non-termination (limit 12 s; languages have at most 1500 programs); for bee search with non-uniform weights this is the known finding c02_bee_search_blowup and only the produced prefix is checked",
-               "unambiguous-grammar variants of heap/bucket search: see the U-grammar entries"]
+               "unambiguous grammars (u-heap-search, u-bucket-search on UCFG.from_CFG and on sharpened UCFG.from_DFTA grammars with several start symbols): the language list comes from the U-table model (Gram/U.v); that this list is duplicate-free is checked at run time, that it is complete for U tables is not proved (C04 U theorems are partial)"]
 
 
 def gen(rng, tier):
     n = 70 if tier == "quick" else 900
     cases = []
     for i in range(n):
-        cases.append(EG.gen_case(rng, enum=EG.DET_ENUMS[i % len(EG.DET_ENUMS)]))
+        cases.append(EG.gen_case(rng, enum=EG.ALL_ENUMS[i % len(EG.ALL_ENUMS)]))
     return cases
 
 
@@ -35,6 +35,8 @@ def usable(io):
 def to_model(case, io):
     if not usable(io) or io.get("skip"):
         return []
+    if "utable" in io:
+        return [(11, [io["utable"], io["starts"], EG.fuel_of(case["grammar"]), io["out"]])]
     return [(1, [io["table"], io["start"], EG.fuel_of(case["grammar"]), io["out"]])]
 
 
@@ -86,7 +88,7 @@ def shrink(case):
         yield dict(case, grammar=g2)
     if g["forbidden"]:
         yield dict(case, grammar=dict(g, forbidden=[]))
-    key = "max_depth" if g["kind"] == "cfg" else "max_size"
+    key = "max_size" if g["kind"] == "size" else "max_depth"
     if g[key] > 2:
         yield dict(case, grammar=dict(g, **{key: g[key] - 1}))
     if case["weights"]["kind"] != "ties":
